@@ -50,6 +50,19 @@
 (*                           expression "minus nothing" = 0, not an error  *)
 (*   a PUBLIC/GLOBAL/FORWARD entry is used up by the next definition only  *)
 (*   a stack that is not empty at the end of a pass is a warning           *)
+(*                                                                         *)
+(* Argument lists ("It is possible to treat multiple symbols with one      *)
+(* statement", PUBLIC and GLOBAL): a FORWARD/PUBLIC/GLOBAL statement with  *)
+(* several arguments  name[:section], name[:section], ...  is written in   *)
+(* the program text as consecutive elements [k, nm, q], one per argument;  *)
+(* every element but the first carries cont |-> TRUE ("a further argument  *)
+(* of the statement the element before me belongs to").  Each argument has *)
+(* its OWN destination: the one after its ':' or, without ':', the global  *)
+(* level - never the destination of a neighbour in the list.  CodePPSyms() *)
+(* is a loop over the arguments that resets the destination per argument   *)
+(* (DoPP is one turn of that loop); the manual treats the list as the      *)
+(* single-symbol statements one after the other (Part 3: every element is  *)
+(* a declaration of its own at its own position).                          *)
 (***************************************************************************)
 EXTENDS Integers, Sequences, FiniteSets, TLC
 
@@ -104,6 +117,10 @@ NoQ == [t |-> "none"]
 QGlob == [t |-> "glob"]
 QParent(d) == [t |-> "parent", d |-> d]
 QName(n) == [t |-> "name", n |-> n]
+
+\* FORWARD / PUBLIC / GLOBAL elements; Cont(st): st is a further argument of the statement of the element before it
+PPKinds == {"FORWARD", "PUBLIC", "GLOBAL"}
+Cont(st) == st.k \in PPKinds /\ "cont" \in DOMAIN st /\ st.cont
 
 (***************************************************************************)
 (* Part 2: the machine.                                                    *)
@@ -176,6 +193,9 @@ Put(list, name, d) == {e \in list : e.n # name} \cup {[n |-> name, d |-> d]}
 Drop(list, name) == {e \in list : e.n # name}
 DestOf(list, name) == (CHOOSE e \in list : e.n = name).d
 
+\* one turn of the forallargs loop: kind = the statement, (nm, q) = the argument "nm" or "nm:q".  The destination is
+\* decided per argument: `*Section = '\0'` in the branch without ':' (q = NoQ -> global), else IdentifySection(q).
+\* A name that is already on the list of this kind (SearchSym(*Orig) finds it) gets its destination overwritten.
 DoPP(s, kind, nm, q) ==
   IF s.stk = <<>> THEN Err(s, "UnknownInstruction")            \* only decoded inside a section
   ELSE IF kind = "FORWARD" /\ s.pass > MaxSymPass THEN s
@@ -471,6 +491,7 @@ StructOK(A) ==
        /\ p[i].k = "SECTION" =>      \* "not more than one section on the same level with the same name"
             ~\E j \in 1..(i - 1) : p[j].k = "SECTION" /\ A.path[j][1] = A.path[i][1] /\ EqName(A.cs, p[j].n, p[i].n)
        /\ p[i].k \in {"FORWARD", "PUBLIC", "GLOBAL"} => A.slev[i] > 0
+       /\ Cont(p[i]) => i > 1 /\ p[i - 1].k = p[i].k      \* a further argument needs a statement of its kind before it
 
 \* ---- which section does a qualifier / a PUBLIC target denote (seen from position i); -1 = invalid --------------
 Target(A, i, q) ==
